@@ -313,6 +313,13 @@ const RUN_PALETTE: [[u32; 3]; 6] = [
 ];
 
 pub fn float_pixel(seed: u64, mode: u64, i: u64) -> [u32; 3] {
+    if mode == 8 {
+        // every special value once per channel within any 22 consecutive pixels, the three
+        // channels walking the table at different offsets (so every pair meets over seeds)
+        let n = SPECIALS.len() as u64;
+        let (a, b) = (1 + mix(seed, 0xc000) % (n - 1), 1 + mix(seed, 0xc001) % (n - 1));
+        return [SPECIALS[(i % n) as usize], SPECIALS[((i + a) % n) as usize], SPECIALS[((i * 3 + b) % n) as usize]];
+    }
     if mode == 7 {
         // grey pixels whose value sits on (or an ulp or two beside) a quantisation boundary
         // k + 0.5 of some integer format: where a fused and an unfused multiply-add, or two
@@ -404,6 +411,28 @@ pub fn yuv_sample(op: &Op, pl: usize, x: usize, y: usize) -> u16 {
     let bd = op.cfg.bd;
     let tmax: u64 = if op.which == 0 { 255 } else { 65535 };
     let cmax: u64 = ((1u64 << bd) - 1).min(tmax);
+    // mode 4: structured planes. Each plane, independently of the others, is random, constant,
+    // made of identical rows, of identical columns, of rows repeated in runs, or of row pairs -
+    // flat areas, bars and stripes; what a shortcut for "same as the row above" would key on
+    // (and what random samples never offer: two equal rows of 16 samples have probability 2^-128)
+    let (x, y) = if op.datamode == 4 {
+        match mix(op.dataseed, 0x5700 + pl as u64) % 7 {
+            0 => (x, y),
+            1 => (0, 0),
+            2 | 3 => (x, 0),
+            4 => (0, y),
+            5 => {
+                let mut start = y;
+                while start > 0 && mix(op.dataseed, 0x5800 + ((pl as u64) << 24) + start as u64) % 3 != 0 {
+                    start -= 1;
+                }
+                (x, start)
+            }
+            _ => (x, y & !1),
+        }
+    } else {
+        (x, y)
+    };
     let r = mix(op.dataseed, (pl as u64) << 40 | (y as u64) << 20 | x as u64);
     let k = 1u64 << (bd - 8);
     let v = match op.datamode {
@@ -456,7 +485,17 @@ fn oob_position(op: &Op) -> (usize, usize, usize) {
     let r = mix(op.dataseed, 0xbad);
     let pl = (r % 3) as usize;
     let (w, h) = plane_dims(op, pl);
-    (((r >> 8) % w as u64) as usize, ((r >> 32) % h as u64) as usize, pl)
+    let (x, y) = (((r >> 8) % w as u64) as usize, ((r >> 32) % h as u64) as usize);
+    // half of the positions are on the border of the plane: last/first row, last column, corner
+    // (remainder rows and columns of banded or chunked scans)
+    let (x, y) = match mix(op.dataseed, 0xbad1) % 8 {
+        0 => (x, h - 1),
+        1 => (x, 0),
+        2 => (w - 1, y),
+        3 => (w - 1, h - 1),
+        _ => (x, y),
+    };
+    (x, y, pl)
 }
 pub fn has_oob_sample(op: &Op) -> bool {
     matches!(op.datamode, 2 | 5 | 6 | 7) && op.which == 1 && op.cfg.bd < 16
